@@ -716,7 +716,7 @@ func GetAPSource(val *fastjson.Value) Source {
 		}
 	}
 	if mimeBytes := val.Get("source", "mediaType").GetStringBytes(); len(mimeBytes) > 0 {
-		s.MediaType.UnmarshalJSON(mimeBytes)
+		s.MediaType = MimeType(mimeBytes)
 	}
 
 	return s
